@@ -55,80 +55,9 @@ def run(ctx):
     tool_keys = {k for k, f in prog.funcs.items() if "asn1-tools/" in f.relfile}
     comps, cyc = recursion_rule(prog, "unber", tool_keys, r1, exc, None, guard_fn=depth_guard, what="depth limit")
     r2 = Rule("R20.2", "results of the BER fetch routines are used only where both sentinels (0, -1) are excluded", floor=2)
-    for f in sorted(prog.funcs.values(), key=lambda f: f.key):
-        if "asn1-tools/" not in f.relfile:
-            continue
-        for b, i, e in f.calls():
-            cal = e.get("callee")
-            if cal not in ("ber_fetch_tag", "ber_fetch_length"):
-                continue
-            subj = assume.subject_of_call(e, None)
-            key = cal
-            if subj is None or subj.var is None:
-                r2.bad(f, key, "result of %s is not held in a variable (%s)" % (cal, e.get("use")), e["line"])
-                continue
-            vid = subj.var
-            bad = None
-            for v in (0, -1):
-                # walk under the assumption; any arithmetic use of the variable reachable is a misuse
-                pred = subj.pred()
-                seen, st = set(), [(b.id, i + 1)]
-                while st and bad is None:
-                    bid, pos = st.pop()
-                    if (bid, pos) in seen:
-                        continue
-                    seen.add((bid, pos))
-                    blk = f.blocks[bid]
-                    stop = False
-                    for j in range(pos, len(blk.ev)):
-                        x = blk.ev[j]
-                        if x["k"] == "assign" and x.get("base_id") == vid and not x.get("deref") and x.get("op") == "=" and not (bid == b.id and j == i + 1):
-                            stop = True
-                            break
-                        trees = []
-                        if x["k"] == "assign" and not (bid == b.id and j == i + 1):
-                            trees = [x.get("rhs", {}).get("tree")]
-                        elif x["k"] == "call" and x.get("callee") not in ("fprintf", "osprintfError", "osprintf", "__assert_fail"):
-                            trees = [a.get("tree") for a in x.get("args", [])]
-                        elif x["k"] == "subscript":
-                            trees = [x.get("index", {}).get("tree")]
-                        for t in trees:
-                            for n in walk(t):
-                                if n[0] == "bin" and n[1] in ("+", "-", "*") and (is_var(n[2], vid) or is_var(n[3], vid)):
-                                    bad = (v, x)
-                        if x["k"] == "return":
-                            stop = True
-                            break
-                    if stop or bad:
-                        continue
-                    alive = list(range(len(blk.succ)))
-                    if blk.term and "cond" in blk.term:
-                        if blk.term["kind"] == "SwitchStmt":
-                            val = assume.eval_under(blk.term["cond"]["tree"], pred, v)
-                            if val is not None:
-                                hit = dflt = None
-                                for idx, s_ in enumerate(blk.succ):
-                                    if s_ is None:
-                                        continue
-                                    lab = f.blocks[s_].label or {}
-                                    if lab.get("kind") == "case" and lab.get("value") == val:
-                                        hit = idx
-                                    elif lab.get("kind") != "case":
-                                        dflt = idx
-                                alive = [hit if hit is not None else dflt]
-                        elif len(blk.succ) >= 2:
-                            val = assume.eval_under(blk.term["cond"]["tree"], pred, v)
-                            if val is not None:
-                                alive = [0] if val else [1]
-                    for idx in alive:
-                        if idx is not None and idx < len(blk.succ) and blk.succ[idx] is not None:
-                            st.append((blk.succ[idx], 0))
-            if bad is None:
-                r2.ok(f, key, "assuming the fetch answered 0 or -1, no arithmetic on its result is reachable", e["line"])
-            else:
-                v, x = bad
-                r2.bad(f, key, "assuming %s returned %d, its result is still used in arithmetic at line %s (`%s`): a sentinel is treated as a length" % (
-                    cal, v, x.get("line"), (x.get("lhs") or x.get("text") or "")[:60]), e["line"])
+    from .sentinels import sentinel_rule
+    sentinel_rule(prog, r2, [f for f in prog.funcs.values() if "asn1-tools/" in f.relfile],
+                  {"ber_fetch_tag": (0, -1), "ber_fetch_length": (0, -1)})
     return [r1, r2]
 
 
